@@ -29,7 +29,7 @@ run_seq() {
 }
 
 case "$ID" in
-  C01|C02|C03|C04|C05|C06|C08|C18|C20)
+  C01|C02|C03|C04|C05|C06|C08|C09|C18|C20)
     B=$(scripts/e1bin.sh) || exit 2
     export VERIF_E1NATIVE=$B/e1native VERIF_REWRITES=$B/rewrites.json VERIF_TREE_HASH=$(basename $B)
     lid=$(echo $ID | tr A-Z a-z)
